@@ -29,8 +29,13 @@ def cases(ctx):
     rng = ctx.rng
     for i in range(260 if not thorough else 3000):
         P = gen.ambiguous_stack_pda(rng) if i % 25 == 4 else gen.random_pda(rng, markers=True)
+        if i % 6 == 1 and len(P['delta']) >= 2:
+            # two transition keys hold the SAME set object (d[k1] = d[k2] = {...}); the sets are never edited by a correct conversion
+            r1, r2 = rng.sample(range(len(P['delta'])), 2)
+            P['delta'][r2] = P['delta'][r2][:3] + [[list(t) for t in P['delta'][r1][3]]]
+            P['share'] = True
         if not thorough or ctx.mine(i):
-            yield {'P': P, 'cfg': False}
+            yield {'P': P, 'cfg': i % 12 == 1 and len(P['Q']) <= 2 and len(P['delta']) <= 3}
     for i in range(6 if not thorough else 60):      # 12-18 moves that neither push nor pop (more than ten intermediate states M1, M2, ...)
         P, probes = gen.noop_heavy_pda(rng)
         if not thorough or ctx.mine(i):
